@@ -21,6 +21,7 @@ dump` triples on every generated history, small and real depths) and is not yet 
 -/
 import BRV.Props.C09
 import BRV.Proofs.RepoClean
+import BRV.Proofs.LinearWorld
 
 namespace BRV.Repo
 
@@ -161,5 +162,25 @@ theorem genesis_heightsComplete : HeightsComplete genesisRepo := by
   simp only at hid
   subst hid; subst hx
   rfl
+
+
+/-- **C10 in the linear world**: at ANY point of ANY history of tip-extending submissions (any length,
+    across 1000-header file boundaries, the 10000-header prune depth and the automatic clean), Cleans, Saves
+    and Loads, running Clean with any depth succeeds and leaves the tip, the header at every height and the
+    height of every hash unchanged — and the repository is again in the linear world, so the statement
+    applies to every later operation as well (Clean any number of times, when the chain already spans
+    several consolidated generations). -/
+theorem C10_linear_world (r0 : Repo) (c0 : List HData) (k0 m0 : Nat) (h0 : PLin r0 c0 k0 m0) (ops : List LinOp)
+    (hh : LinHist r0 ops) (depth : Int) (hd : 0 ≤ depth) :
+    ∃ r', cleanWith (runOps r0 ops) depth = (r', none) ∧
+      tipHeight r' = tipHeight (runOps r0 ops) ∧ tipId r' = tipId (runOps r0 ops) ∧ tipWork r' = tipWork (runOps r0 ops) ∧
+      (∀ h : Nat, headerAt r' h = headerAt (runOps r0 ops) h) ∧ (∀ id, hashHeight r' id = hashHeight (runOps r0 ops) id) ∧
+      LinHist (runOps r0 ops) [.clean depth] := by
+  obtain ⟨c, k, m, hp⟩ := plin_history ops r0 c0 k0 m0 h0 hh
+  obtain ⟨r', k', hcl, _, h1, h2, h3, h4, h5⟩ := clean_obs_lin hp depth hd
+  exact ⟨r', hcl, h1, h2, h3, h4, h5, ⟨hd, trivial⟩⟩
+
+/-- the genesis-only repository starts a linear world (hypothesis of the linear-world theorems). -/
+theorem genesis_linear_world : PLin genesisRepo genesisRepo.arena[0].headers 0 0 := plin_genesis
 
 end BRV.Repo
